@@ -17,7 +17,7 @@ Proof.
   destruct f as [[[cmp lhs] o] rhs]. unfold item_of_filter in H1. destruct cmp.
   - injection H1 as <-. destruct (triple_cmp_inv _ _ _ _ _ _ H2) as (oc & a & b & tb & c & _ & _ & _ & _ & _ & _ & -> & ->). reflexivity.
   - destruct (lookupS lhs fields_table) as [fc|]; [|discriminate]. destruct (is_string_field fc) eqn:Es.
-    + injection H1 as <-. destruct (triple_str_inv _ _ _ _ _ _ H2) as (fc' & oc & _ & _ & Hs & -> & ->). unfold aligned. rewrite Hs. eauto.
+    + injection H1 as <-. destruct (triple_str_inv _ _ _ _ _ _ H2) as (fc' & oc & _ & _ & Hs & -> & -> & _). unfold aligned. rewrite Hs. eauto.
     + destruct (parse_value fc rhs); try discriminate. injection H1 as <-.
       destruct (triple_num_inv _ _ _ _ _ _ H2) as (fc' & oc & _ & _ & Hs & -> & -> & _). unfold aligned. rewrite Hs. reflexivity.
 Qed.
